@@ -78,6 +78,7 @@ type Inc struct {
 	lastTransStep int64 // scheduling step of the last observed change into or out of Leader
 	openFailed    map[string]bool // snapshots whose Open failed (injected) during start-up
 	beyondSince time.Duration
+	cfgUncommittedSince int64 // event seq since which the latest configuration has been uncommitted without interruption (0 = it is committed)
 	cfgGhostSince time.Duration // since when the latest configuration names an index the durable log does not hold as that configuration
 	bootFaults  int64
 	cfgHist     []cfgHistRec
